@@ -16,7 +16,7 @@ PROFILES["C06"] = dict(notw=[(0, 1)], ops=1, edge_types=False, leave_w=0, ctl_w=
                        clock_w=0)
 T = 1500
 IDS = [0, 0, 0, 10, 11, 12, 1, 99, 100, 101, 200, -1, 32767, 4, 5, 4]
-NAMES = [b"", b"", b"shared", b"shared", b"alpha", b"beta", b"message_manager"]
+NAMES = [b"", b"", b"shared", b"shared", b"alpha", b"beta", b"message_manager", b" shared", b"alpha ", b" ", b"a b"]
 
 
 class ClientActor:
